@@ -141,6 +141,10 @@ def cases(thorough):
     sp = [92, 34, 48, 55, 56, 10, 0x80, 0xff, 9, 32]
     for a, b in itertools.product(sp, sp):
         add("string pair %d,%d" % (a, b), module("s1: string \"%s\"\n" % esc([a, b]) + p1 + func("  call p1, ext1, r, \"%s\"\n" % esc([a, b]))), run=0)
+    # a byte printed as an escape followed by characters that could extend the escape (octal digits), for every control byte
+    for a in list(range(1, 32)) + [127, 128, 255]:
+        for tail in ([48], [55], [56], [57, 57], [50, 51], [97]):
+            add("string escape-then-digits %d,%s" % (a, tail), module("s1: string \"%s\"\n" % esc([107, a] + tail + [122]) + p1 + func("  call p1, ext1, r, \"%s\"\n" % esc([a] + tail))), run=0)
     add("string empty", module("s1: string \"\"\n" + p1 + func("  call p1, ext1, r, \"\"\n")), run=0)
     add("string as u8 data with and without NUL", module("s1: u8 97, 98, 0\ns2: u8 97, 98\ns3: u8 0\ns4: u8 97, 0, 98, 0\n"), run=0)
     add("string embedded NUL", module("s1: string \"a\\000b\"\n" + p1 + func("  call p1, ext1, r, \"a\\000b\"\n")), run=0)
@@ -183,6 +187,10 @@ def cases(thorough):
     for nm, fb, db, lb in specials:
         text = module(func("  fmov f1, 12345.5f\n  dmov d1, 12345.5\n  ldmov l1, 12345.5L\n  mov r, 0\n") + "sd1: f 12345.5f\nsd2: d 12345.5\nsd3: ld 12345.5L\n")
         add("special fp " + nm, text, run=0, binary_only=1, fbits=fb, dbits=db, ldbits=lb)
+    # ---- memory operands carrying alias and nonalias names in every combination: the driver also checks the names read from the text against these ----
+    for al, nal in (("a", ""), ("", "n1"), ("a", "n1"), ("tint", "na2")):
+        suffix = (":" + al if al else "") + ("::" + nal if nal and not al else (":" + nal if nal else ""))
+        add("alias names [%s] [%s]" % (al, nal), module(func("  mov r, i64:8(m)%s\n  mov i64:16(m)%s, r\n  add r, r, u8:(m, c, 2)%s\n" % (suffix, suffix, suffix))), run=0, alias=al or "-", nonalias=nal or "-")
     # ---- integer bit patterns the scanner cannot be trusted to produce from text: patched into the scanned module (immediates, i64/u64/p data), then written and re-read ----
     for v in [2**63, 2**63 + 1, 2**64 - 1, 2**63 - 1, 0xffffffff80000000, 2**32, 2**31, 0x8000000080000000, 10**19, 1, 0]:
         text = module(func("  mov r, 1234567\n  add r, r, 1234567\n  mov r1, i64:1234567(m)\n") + "si1: i64 1234567\nsi2: u64 1234567, 5\nsi3: p 1234567\nsi4: i32 7\n")
